@@ -332,6 +332,54 @@ func propC19FE(c c14Case) hh.Verdict {
 	return v
 }
 
+// propC19Validate: "Validate changes the validated value only through Default, Catch and PostTransform" (and through
+// the output of a Preprocess function that succeeded, which is written back as documented): after Validate the whole
+// value must equal the specification's, also when issues were reported and also below a Preprocess whose function failed.
+func propC19Validate(c model.Case) hh.Verdict {
+	c.Root.Number()
+	env := &model.Env{}
+	schema, typ := model.Build(c.Root, env)
+	pre, failedPre := 0, 0
+	c.Root.Walk(func(n *model.Node) {
+		if n.Kind == model.KPre {
+			pre++
+		}
+	})
+	v := hh.Verdict{Classes: shapeClasses(c.Root)}
+	for run := 0; run < 3; run++ {
+		dest := newDest(typ, c, false)
+		before := model.CanonJSON(dest.Elem())
+		spec, exp := runSpec(c, dest)
+		if spec.Unknown != "" {
+			return hh.Verdict{Skip: "specification-undetermined"}
+		}
+		res := model.Run(schema, env, c.Exec, nil, dest)
+		if res.Panic != nil {
+			return hh.Fail("panic: %v", res.Panic)
+		}
+		got, want := model.CanonJSON(dest.Elem()), model.CanonJSON(exp)
+		if got != want {
+			return hh.Fail("after Validate the value is %s, expected %s (it was %s; issues %s) (run %d)", got, want, before, fmtIss(res.Norm(false)), run)
+		}
+		for _, is := range spec.Issues {
+			if is.Code == "*" {
+				failedPre++
+			}
+		}
+		if !res.NoIssues() && got != before {
+			v.Classes = append(v.Classes, "changed-and-issues")
+		}
+	}
+	if pre > 0 {
+		v.Classes = append(v.Classes, "has-preprocess")
+	}
+	if failedPre > 0 {
+		v.Classes = append(v.Classes, "preprocess-function-failed")
+	}
+	v.Nontrivial = failedPre > 0 || contains(v.Classes, "changed-and-issues")
+	return v
+}
+
 func TestC19(t *testing.T) {
 	h := hh.Start(t, "C19",
 		"cases = one schema (slice and primitive defaults, catch values, OneOf lists, Contains values, destination-mutating PostTransforms) and a history of 2-6 executions in both modes, some repeated verbatim, some with an execution-level formatter of their own; inputs are nested maps / slices, optionally behind one or two pointers, requests handed to zhttp (form bodies and query strings with list parameters, parsed three times each), or Go values of the destination's own type (same pointer, slice and struct types as the destination); non-trivial = a slice default exists and an execution follows one whose destination was scribbled over, or the input holds nested maps/slices; distinct = FNV-1a of the case JSON",
@@ -348,5 +396,8 @@ func TestC19(t *testing.T) {
 	fcfg := model.DefaultCfg("parse")
 	fcfg.PPost, fcfg.PCatch, fcfg.PJunk, fcfg.PDefault = 0, 0.1, 0, 0.2
 	fcfg.PVary, fcfg.PAbsent, fcfg.PTestSat, fcfg.PZogTag, fcfg.MaxElems = 0.3, 0.25, 0.85, 0.2, 5
+	vcfg := model.DefaultCfg("validate")
+	vcfg.PPre, vcfg.PPost, vcfg.PDefault, vcfg.PCatch, vcfg.PVary, vcfg.PAbsent, vcfg.PTestSat = 0.3, 0, 0.3, 0.2, 0.4, 0.25, 0.6
+	hh.Sub(h, "validate-value", h.N(5000, 40000), func(rt *rapid.T) model.Case { return model.GenCase(rt, vcfg) }, propC19Validate)
 	hh.Sub(h, "requests", h.N(4000, 30000), func(rt *rapid.T) c14Case { return genC14With(rt, fcfg, true, true) }, propC19FE)
 }
